@@ -16,7 +16,7 @@ Proof.
     try (destruct (at_off c 0); simpl; split; try reflexivity; lia).
 Qed.
 
-Lemma and_move_spec c b k : and_move c b k = (if b then moved c k else c, COk (VBool b)).
+Lemma and_move_spec c b k : and_move c b k = (if b then moved c k else c, COk (CVBool b)).
 Proof. unfold and_move. destruct b; reflexivity. Qed.
 
 (* search_and_move*: advances by exactly the matched length iff it answers true, not at all otherwise *)
@@ -29,10 +29,10 @@ Definition sm_len (o : cop) : option nat :=
   | _ => None
   end.
 Theorem search_and_move_exact c o n : sm_len o = Some n ->
-  exists b, snd (step c o) = COk (VBool b) /\ pos (fst (step c o)) = (if b then pos c + n else pos c)%nat.
+  exists b, snd (step c o) = COk (CVBool b) /\ pos (fst (step c o)) = (if b then pos c + n else pos c)%nat.
 Proof.
   destruct o; simpl; intros H; inversion H; subst; rewrite and_move_spec; simpl;
-    match goal with |- context [VBool ?b] => exists b; split; [reflexivity|destruct b; reflexivity] end.
+    match goal with |- context [CVBool ?b] => exists b; split; [reflexivity|destruct b; reflexivity] end.
 Qed.
 
 (* the peeking twin of every search_and_move answers the same *)
@@ -49,7 +49,7 @@ Proof. destruct o; simpl; intros H; inversion H; subst; simpl; rewrite and_move_
 (* match: on success the position advances by exactly the number of patterns, on failure it raises the parse error
    and the position does not move at all; it succeeds exactly when search does *)
 Theorem match_exact c ps :
-  (search c ps = true /\ step c (OMatch ps) = (moved c (length ps), COk VUnit)) \/
+  (search c ps = true /\ step c (OMatch ps) = (moved c (length ps), COk CVUnit)) \/
   (search c ps = false /\ step c (OMatch ps) = (c, CErr ParseErr)).
 Proof. simpl. destruct (search c ps); [left|right]; auto. Qed.
 
@@ -74,9 +74,9 @@ Proof.
 Qed.
 
 (* children scanners are fresh: they start at position 0 over the children of the current token (modelled by the
-   value VScanner ts; a new cursor is mkcur ts 0) and the parent only moves by one *)
+   value CVScanner ts; a new cursor is mkcur ts 0) and the parent only moves by one *)
 Theorem pop_children_moves_one c t : at_off c 0 = Some t ->
-  step c OPopChildren = (moved c 1, COk (VScanner (tok_children t))).
+  step c OPopChildren = (moved c 1, COk (CVScanner (tok_children t))).
 Proof. simpl. intros ->. reflexivity. Qed.
 
 (* ---------- histories ---------- *)
